@@ -212,7 +212,16 @@ class BeliefPropagationDecoder(BaseBlockDecoder[Union[LinearBlockCodeEncoder, LD
         self.n_c = self.H.size(0)
         self.prep_edge_ind()
         if not self.standard:
-            self.idx_mess_t = torch.where(self.G.sum(0) == 1)[0]
+            # Message bit i is read at the first codeword position whose generator column is the
+            # unit vector e_i (a weight-1 column may also be a parity position, or a repeated one).
+            unit_cols = self.G.sum(0) == 1
+            idx = []
+            for i in range(self.G.size(0)):
+                pos = torch.where(unit_cols & (self.G[i] == 1))[0]
+                if pos.numel() == 0:
+                    raise ValueError("The generator matrix must contain every unit column (systematic up to a column permutation) " "so that message bits can be read from the decoded codeword.")
+                idx.append(pos[0])
+            self.idx_mess_t = torch.stack(idx)
 
     def prep_edge_ind(self):
         """Prepare edge indices and map structures for the Tanner graph.
